@@ -50,6 +50,14 @@ def CounterWf(x: ty.Any, log: str, delay_ms: int = 0):
     return c.out, c.nonce, c.big
 
 
+@workflow.define(outputs=["out", "nonce", "big"])
+def CounterWfShared(x: ty.Any, log: str, delay_ms: int = 0, salt: int = 0):
+    """C10, shape "different workflows sharing a node job": every submitter passes its own `salt`,
+    so the workflow jobs (and their locks) differ while the node job is one and the same"""
+    c = workflow.add(Counter(x=x, log=log, delay_ms=delay_ms), name="c")
+    return c.out, c.nonce, c.big
+
+
 # ------------------------------------------------------------------ typed workflow tasks (C18)
 @python.define
 def ST1(a: str) -> str:
